@@ -242,7 +242,9 @@ func (sr *ServiceRouter) updateRoutes(desc *bridgedesc.Target) {
 		svc := &desc.Services[i]
 
 		// Add new routes
-		route, ok := sr.routes.LoadOrStore(svc.Name, serviceRoute{target: desc, service: svc})
+		newRoute := serviceRoute{target: desc, service: svc}
+
+		route, ok := sr.routes.LoadOrStore(svc.Name, newRoute)
 		if !ok {
 			sr.logger.Debug("adding route", "target", desc.Name, "service", svc.Name)
 		} else if ok && route.(serviceRoute).target.Name != desc.Name {
@@ -254,6 +256,10 @@ func (sr *ServiceRouter) updateRoutes(desc *bridgedesc.Target) {
 				"new_target", desc.Name,
 			)
 			continue
+		} else {
+			// The route is already owned by this target, but it must point to the new description,
+			// otherwise requests would keep being routed with the outdated target/service info.
+			sr.routes.Store(svc.Name, newRoute)
 		}
 
 		// Mark route as present to avoid removing it
